@@ -35,7 +35,7 @@ def plan(tier, seed):
         kinds = {"random": 6000, "adversarial": 3000, "exact": 2500, "crowd": 3, "storage": 40}
         per = 750
     else:
-        kinds = {"random": 400000, "adversarial": 150000, "exact": 120000, "crowd": 60, "storage": 2000}
+        kinds = {"random": 400000, "adversarial": 150000, "exact": 120000, "crowd": 16, "storage": 600}
         per = 10000
     return out + common.shards(kinds, per_shard=per, tier=tier, seed=seed)
 
